@@ -1,8 +1,109 @@
 import Driver.Util
-open Lean
+import Paroxy.Model.FlatAst
+import Paroxy.Spec.FlatAst
+import Paroxy.Spec.FlatTweaks
+open Lean Paroxy.Flat
 
 namespace Driver.C15
 
-def handlers : List (String × Handler) := []
+def kindOfString : String → Except String Kind
+  | "str" => pure .str
+  | "bytes" => pure .bytes
+  | "nameconst" => pure .nameConst
+  | "ellipsis" => pure .ellipsis
+  | "num" => pure .num
+  | k => throw s!"unknown scalar kind {k}"
+
+/-- JSON tree format (harness/flat_export.py):
+`["n", ty, isExpr, repr, lineno|null, [[name, val], …]]`, `["l", [val, …]]`, `["s", repr, kind]`. -/
+partial def parseVal (j : Json) : Except String Val := do
+  let a ← j.getArr?
+  let tag ← (a[0]?.getD Json.null).getStr?
+  match tag with
+  | "n" =>
+    let ty ← (a[1]?.getD Json.null).getStr?
+    let e ← (a[2]?.getD Json.null).getBool?
+    let r ← (a[3]?.getD Json.null).getStr?
+    let ln ← match a[4]?.getD Json.null with
+      | Json.null => pure none
+      | x => do
+        let n ← x.getNat?
+        pure (some n)
+    let fs ← (a[5]?.getD Json.null).getArr?
+    let fields ← fs.toList.mapM fun f => do
+      let p ← f.getArr?
+      let n ← (p[0]?.getD Json.null).getStr?
+      let v ← parseVal (p[1]?.getD Json.null)
+      pure (n.toList, v)
+    pure (.node ty.toList e r.toList ln fields)
+  | "l" =>
+    let xs ← (a[1]?.getD Json.null).getArr?
+    let items ← xs.toList.mapM parseVal
+    pure (.list false items)
+  | "s" =>
+    let r ← (a[1]?.getD Json.null).getStr?
+    let k ← (a[2]?.getD Json.null).getStr?
+    pure (.scalar r.toList (← kindOfString k))
+  | t => throw s!"unknown tree tag {t}"
+
+def linesJson (ls : List Str) : Json := Json.arr (ls.map fun l => Json.str (String.ofList l)).toArray
+
+def getTree (j : Json) : Except String Val := do
+  let t ← j.getObjVal? "tree"
+  parseVal t
+
+def getLines (j : Json) : Except String (List Str) := do
+  let a ← getArr j "lines"
+  a.toList.mapM fun x => do
+    let s ← x.getStr?
+    pure s.toList
+
+/-- `c15.flatten`: the model of `flatten_ast` (code as written). -/
+def flatten : Handler := fun j => do
+  let t ← getTree j
+  let cfg := match j.getObjValAs? String "cfg" with
+    | .ok "spec" => specCfg
+    | _ => implCfg
+  pure (Json.mkObj [("lines", linesJson (flattenAst cfg HashState.reset t).1)])
+
+/-- `c15.dump`: the raw dump before post-processing. -/
+def dump : Handler := fun j => do
+  let t ← getTree j
+  pure (Json.mkObj [("lines", linesJson (dumpS [] [] (onTheFly implCfg t) HashState.reset).1)])
+
+/-- `c15.spec`: the flat AST the property describes. -/
+def spec : Handler := fun j => do
+  let t ← getTree j
+  let t1 := onTheFly implCfg t
+  pure (Json.mkObj [("lines", linesJson (specFlatten t)),
+    ("wf_unquote", Json.bool (wfUnquote t1)), ("wf_kinds", Json.bool (wfKinds t1)),
+    ("wf_posonly", Json.bool (wfPosonly [] t1)), ("wf_alias", Json.bool (wfAlias [] t1))])
+
+/-- `c15.seq`: a sequence of flattenings threading the factory state (indices into `trees`). -/
+def seq : Handler := fun j => do
+  let ts ← getArr j "trees"
+  let trees ← ts.toList.mapM parseVal
+  let order ← (← j.getObjVal? "order") |> intList
+  let sel := order.filterMap fun i => trees[i.toNat]?
+  let r := flattenSeq implCfg HashState.reset sel
+  pure (Json.mkObj [("out", Json.arr (r.1.map linesJson).toArray), ("counter", Json.num (r.2.i : Nat))])
+
+/-- `c15.pass`: one line-level pass on arbitrary lines (validation of the R2 transcriptions). -/
+def pass : Handler := fun j => do
+  let name ← getStr j "name"
+  let ls ← getLines j
+  let f ← match name with
+    | "suppress_kinds" => pure suppressKinds
+    | "suppress_alias_pos" => pure suppressAliasPos
+    | "suppress_posonlyargs" => pure suppressPosonlyargs
+    | "backport_all_constants" => pure backportAllConstants
+    | "simplify_negative_literals" => pure simplifyNegativeLiterals
+    | "unquote" => pure unquote
+    | "post_process" => pure postProcess
+    | n => throw s!"unknown pass {n}"
+  pure (Json.mkObj [("lines", linesJson (f ls))])
+
+def handlers : List (String × Handler) :=
+  [("c15.flatten", flatten), ("c15.dump", dump), ("c15.spec", spec), ("c15.seq", seq), ("c15.pass", pass)]
 
 end Driver.C15
